@@ -225,7 +225,8 @@ class ResolveAnchorIds(Transform):
             explicit[name] = (labelid, implicit_title)
 
         for refnode in findall(self.document)(nodes.reference):
-            if not refnode.get("id_link"):
+            if not refnode.get("id_link") or "refuri" not in refnode:
+                # (no refuri: resolved before, in a document docutils included)
                 continue
 
             target = refnode["refuri"][1:]
